@@ -114,6 +114,22 @@ impl<'a> G<'a> {
                 out.push(put(num(0.0), &c));
                 let is_while = k % 2 == 0;
                 self.skeleton.push(if is_while { 'w' } else { 'u' });
+                if self.rng.chance(1, 4) {
+                    // the condition IS a value of any kind (an empty array is as true as a full one); the
+                    // loop is bounded by a guard at the top of its body
+                    self.skeleton.push('v');
+                    let cond = match self.rng.below(4) {
+                        0 => Expr::Un(UnOp::Not, Box::new(var(self.rng.pick(&self.cond_vars.clone())))),
+                        _ => var(self.rng.pick(&self.cond_vars.clone())),
+                    };
+                    let mut body = vec![
+                        Stmt::Inc { dest: Ident::Name(c.clone()), n: 1 },
+                        Stmt::If { cond: bin(BinOp::Greater, var(&c), num(limit)), then: vec![Stmt::Break], els: None },
+                    ];
+                    body.extend(self.block(depth - 1, true));
+                    out.push(if is_while { Stmt::While { cond, body } } else { Stmt::Until { cond, body } });
+                    return;
+                }
                 let extra = if self.rng.chance(1, 3) {
                     // the right operand of and/or must bind tighter than and/or (there are no parentheses)
                     let mut e = self.any_cond();
